@@ -11,15 +11,15 @@
      C07_affine (now proved, below): composed with the scale models through the
        axis pipeline of Render/Axis.v (LinearScale: Scale/Linear.v; TimeScale:
        Time/TimeScale.v on epoch milliseconds of the full instant).
-     C07_ticktext : tickFormat is likewise the scale packages'; C07_ticks shows
-       that each tick is drawn at its position with the text it was given.
+     C07_ticktext (now proved, below): the tick texts are modelled in
+       Time/TickFormat.v (mytimeformat; "{:.nf}".format) and tied by ./check C11.
      nval reads an F8/F16/F6/Fs number as its value before decimal rounding;
        the printed decimal (nprint, half-even to the format's digits) is within
        half a unit of the last digit (C09_printed_value); the shortest-digits
        spelling of str() is not modelled (only that it denotes the value). *)
 From Coq Require Import ZArith NArith QArith List Bool.
 From Labella Require Import Render.Geometry Render.GeometryProofs Render.Scene Render.SceneProofs
-  Render.Axis Render.AxisProofs.
+  Render.Axis Render.AxisProofs Time.Calendar Time.TickFormat Time.TickFormatProofs Scale.Ticks.
 Import ListNotations.
 Open Scope Q_scope.
 
@@ -205,6 +205,111 @@ Theorem C07_affine_dots : forall i o, axis i = AOk o ->
   Forall2 (fun v p => p = ax_pos o (coord (parse (ai_today i) v))) (ai_data i) (ax_dots o).
 Proof. intros i o H. exact (proj1 (axis_counts i o H)). Qed.
 Print Assumptions C07_affine_dots.
+
+(* C07_ticktext.  In the axis pipeline positions and texts are the SAME tick list,
+   zipped: the text of every tick is scale.tickFormat() applied to the tick AT THAT
+   position (tick_format: mytimeformat for the TimeScale, "{:.nf}".format with the
+   decimals of the tick step for the LinearScale, Time/TickFormat.v); and a scene that
+   draws these ticks shows, as tick j, that text at that position in both documents. *)
+Theorem C07_ticktext : forall i o, axis i = AOk o ->
+  ax_tick_text o = map (tick_format o) (ax_tick_at o) /\
+  combine (ax_ticks o) (ax_tick_text o) =
+    map (fun p => (ax_pos o (coord p), tick_format o p)) (ax_tick_at o).
+Proof. exact axis_tick_text. Qed.
+Print Assumptions C07_ticktext.
+
+Theorem C07_ticktext_drawn : forall i o s j p, axis i = AOk o -> o_ticks (sc_opts s) = true ->
+  sc_ticks s = combine (ax_ticks o) (ax_tick_text o) ->
+  nth_error (ax_tick_at o) j = Some p ->
+  let d := o_dir (sc_opts s) in
+  let text := tick_format o p in
+  let pos := ax_pos o (coord p) in
+  (exists ts pt, pc_ticks (geom_svg (svg_doc_of s)) = Some ts /\ nth_error ts j = Some (pt, text) /\
+        nval (np_along d pt) == pos /\ nval (np_cross d pt) == 0) /\
+  (exists ts pt, pc_ticks (geom_tikz (tikz_doc_of s)) = Some ts /\ nth_error ts j = Some (pt, text) /\
+        nval (np_along d pt) = inject_Z (trunc pos) /\ nval (np_cross d pt) == 0).
+Proof. exact axis_ticks_drawn. Qed.
+Print Assumptions C07_ticktext_drawn.
+
+(* tickformat_total and what the texts denote.  Time: on a valid instant of a year
+   1000..9999 (strftime's %Y is modelled for four-digit years only; the documented
+   domain is 1900..2200) the text has the width of its branch - 4 (%Y), 3..9 (%B),
+   6 (%b %d), 6 (%a %d), 5 (%I %p), 5 (%H:%M), 3 (:%S) - and the branch is the
+   seven-way split of mytimeformat on the instant's fields. *)
+Theorem C07_timeformat_total : forall t, valid t -> (1000 <= dt_y t)%Z ->
+  match time_format_branch t with
+  | 0 => length (time_format t) = 4%nat
+  | 1 => (3 <= length (time_format t) <= 9)%nat
+  | 2 | 3 => length (time_format t) = 6%nat
+  | 4 | 5 => length (time_format t) = 5%nat
+  | _ => length (time_format t) = 3%nat
+  end%Z.
+Proof. exact time_format_total. Qed.
+Print Assumptions C07_timeformat_total.
+
+Theorem C07_timeformat_branches : forall t,
+  match time_format_branch t with
+  | 0 => dt_d t = 1 /\ dt_mo t = 1 /\ time_format t = nat_digits (dt_y t)
+  | 1 => dt_d t = 1 /\ dt_mo t <> 1 /\ time_format t = month_name (dt_mo t)
+  | 2 => dt_d t <> 1 /\ isoweekday t = 7 /\ dt_h t = 0 /\ dt_mi t = 0 /\ dt_s t = 0 /\
+         time_format t = month_abbr (dt_mo t) ++ [SP] ++ d2 (dt_d t)
+  | 3 => dt_d t <> 1 /\ isoweekday t <> 7 /\ dt_h t = 0 /\ dt_mi t = 0 /\ dt_s t = 0 /\
+         time_format t = weekday_abbr (isoweekday t) ++ [SP] ++ d2 (dt_d t)
+  | 4 => dt_d t <> 1 /\ dt_h t <> 0 /\ dt_mi t = 0 /\ dt_s t = 0 /\
+         time_format t = d2 (hour12 (dt_h t)) ++ [SP] ++ ampm (dt_h t)
+  | 5 => dt_d t <> 1 /\ dt_mi t <> 0 /\ dt_s t = 0 /\
+         time_format t = d2 (dt_h t) ++ [COLON] ++ d2 (dt_mi t)
+  | _ => dt_s t <> 0 /\ time_format t = [COLON] ++ d2 (dt_s t)
+  end%Z.
+Proof. exact time_format_branches. Qed.
+Print Assumptions C07_timeformat_branches.
+
+(* the digit fields read back as the numbers they were made from (dvalue: the value
+   of a string of ASCII digits); two-digit fields have width 2; the 12-hour clock *)
+Theorem C07_digits : 
+  (forall z, (0 <= z)%Z -> dvalue (nat_digits z) = z) /\
+  (forall z, (0 <= z < 100)%Z -> dvalue (d2 z) = z /\ length (d2 z) = 2%nat) /\
+  (forall h, (0 <= h < 24)%Z -> (1 <= hour12 h <= 12)%Z /\ h = (hour12 h mod 12 + (if (h <? 12)%Z then 0 else 12))%Z).
+Proof.
+  split; [exact nat_digits_value|]. split; [|exact hour12_spec].
+  intros z H. split; [exact (d2_value z H)|exact (d2_length z)].
+Qed.
+Print Assumptions C07_digits.
+
+(* Linear: the text of a tick is never empty and denotes the tick EXACTLY: an optional
+   '-', the integer part, and (if n > 0) '.' with exactly n fraction digits, with
+   ip + fp / 10^n = |t|  (n = max(0, precision(step)); ticks are multiples of the step).
+   Distinct ticks get distinct texts by C13's fmt_injective. *)
+Theorem C07_linformat_exact : forall a b m t, ~ a == b -> (0 < m)%Z -> In t (ticks a b m) ->
+  let n := decimals (dom_step a b m) in
+  exists ip fp,
+    lin_tick_format a b m t =
+      (if Qlt_le_dec t 0 then [MINUS] else []) ++ nat_digits ip ++
+      (if (n <=? 0)%Z then [] else DOT :: digits_w (Z.to_nat n) fp) /\
+    dvalue (nat_digits ip) = ip /\ dvalue (digits_w (Z.to_nat n) fp) = fp /\
+    length (digits_w (Z.to_nat n) fp) = Z.to_nat n /\ (0 <= ip)%Z /\ (0 <= fp < 10 ^ n)%Z /\
+    inject_Z ip + inject_Z fp / pow10 n == if Qlt_le_dec t 0 then - t else t.
+Proof. exact lin_tick_text_exact. Qed.
+Print Assumptions C07_linformat_exact.
+
+Theorem C07_linformat_total : forall n x, fixed_format n x <> [].
+Proof. exact fixed_format_total. Qed.
+Print Assumptions C07_linformat_total.
+
+(* the seven branches of mytimeformat and four fixed-point texts:
+   "2021" "March" "Mar 14" "Mon 15" "01 PM" "12 AM"... *)
+Example C07_ex_ticktext :
+  time_format (mkdt 2021 1 1 0 0 0 0) = [50; 48; 50; 49]%N /\
+  time_format (mkdt 2021 3 1 0 0 0 0) = [77; 97; 114; 99; 104]%N /\
+  time_format (mkdt 2021 3 14 0 0 0 0) = [77; 97; 114; 32; 49; 52]%N /\
+  time_format (mkdt 2021 3 15 0 0 0 0) = [77; 111; 110; 32; 49; 53]%N /\
+  time_format (mkdt 2021 3 15 13 0 0 0) = [48; 49; 32; 80; 77]%N /\
+  time_format (mkdt 2021 3 15 0 5 0 0) = [48; 48; 58; 48; 53]%N /\
+  time_format (mkdt 2021 3 15 0 5 7 0) = [58; 48; 55]%N /\
+  time_format (mkdt 2021 3 15 12 0 0 0) = [49; 50; 32; 80; 77]%N /\
+  fixed_format 2 (- (1 # 3)) = [45; 48; 46; 51; 51]%N /\ fixed_format 0 12 = [49; 50]%N /\
+  fixed_format 3 (5 # 1000) = [48; 46; 48; 48; 53]%N /\ fixed_format 1 (- (1 # 100)) = [45; 48; 46; 48]%N.
+Proof. vm_compute. repeat split. Qed.
 
 (* non-vacuity: direction up, layer gap 60, two labels of height 18; the second
    sits in layer 2 behind two stubs.  Its path has the specified five steps
